@@ -8,7 +8,7 @@ import pandas as pd
 from . import product as P
 from .core import num
 
-LAYOUTS = ["C", "F", "view", "frame", "mixedframe", "flat", "list"]
+LAYOUTS = ["C", "F", "view", "frame", "mixedframe", "flat", "list", "readonly", "frame_values"]
 GARBAGE = 987654.0
 
 
@@ -39,6 +39,23 @@ def build(layout, rows):
         base[::2, 1:] = a
         obj = base[::2, 1:]
         return obj, lambda: base.__setitem__(Ellipsis, GARBAGE)
+    if layout == "readonly":      # a read-only window onto memory the caller can still write to (a protected view of a shared buffer)
+        base = np.array(a, dtype=float)
+        obj = base.view()
+        obj.setflags(write=False)
+        return obj, lambda: base.__setitem__(Ellipsis, GARBAGE)
+    if layout == "frame_values":  # what DataFrame.to_numpy() hands out (read-only under copy-on-write); the caller then edits the frame's own data
+        df = pd.DataFrame(a, columns=["c%d" % i for i in range(a.shape[1])])
+        obj = df.to_numpy()
+        raw = df._mgr.blocks[0].values if hasattr(df, "_mgr") else None
+
+        def overv():
+            try:
+                if raw is not None:
+                    raw[...] = GARBAGE
+            except Exception:  # noqa
+                pass
+        return obj, overv
     if layout == "frame":
         obj = pd.DataFrame(a, columns=["c%d" % i for i in range(a.shape[1])])
 
